@@ -594,8 +594,14 @@ def gen_map(rng, name="src"):
         srcf.decls.append(Funcs("Mapper", funcs))
     # embedded pointer structs on both sides (pointer paths: nil checks, allocation lists sorted after a map iteration)
     emb = None
+    nested = False
     if rng.random() < 0.7:
         emb = Struct("Inner", [SField("Deep", "string"), SField("Zip", "int")])
+        if rng.random() < 0.5:
+            # a pointer struct embedded in a pointer struct: one field is covered by two pointer paths
+            nested = True
+            srcf.decls.append(Struct("Core", [SField("Nub", "string")]))
+            emb.items.insert(0, Embed("Core", ptr=True))
         srcf.decls.append(emb)
     emb2 = None
     if rng.random() < 0.6:
@@ -620,6 +626,8 @@ def gen_map(rng, name="src"):
             sitems.append(Embed("Mapper"))
         if emb and rng.random() < 0.7 and not snew:
             sitems.append(Embed("Inner", ptr=rng.random() < 0.8))
+            if nested and not dnew and rng.random() < 0.8:
+                ditems.append(SField("Nub", "string"))
         if emb2 and rng.random() < 0.7 and not snew:
             sitems.append(Embed("Extra", ptr=rng.random() < 0.8))
             if not dnew and not demb2 and rng.random() < 0.8:
